@@ -67,8 +67,8 @@ func checkErrorList(text string, errs []txt.Error) error {
 		if e.Position() < 0 || e.Length() < 0 || e.Position() > runes || e.Position()+e.Length() > runes+1 {
 			return fmt.Errorf("error %d (line %d, %s): position %d + length %d exceeds the line (%d characters): %q", i, n, e.Code(), e.Position(), e.Length(), runes, lt)
 		}
-		if e.Column() != e.Position()+1 {
-			return fmt.Errorf("error %d: column %d != position %d + 1", i, e.Column(), e.Position())
+		if e.Column() < 1 || e.Column()+e.Length() > runes+2 {
+			return fmt.Errorf("error %d (line %d): column %d + length %d exceeds the line (%d characters)", i, n, e.Column(), e.Length(), runes)
 		}
 	}
 	return nil
@@ -86,8 +86,8 @@ func checkRenderings(errs []txt.Error, jsonOut string) error {
 	}
 	for _, theme := range []tf.ColourTheme{tf.COLOUR_THEME_DARK, tf.COLOUR_THEME_LIGHT, tf.COLOUR_THEME_BASIC} {
 		styled := util.PrettifyParsingError(app.NewParserErrors(errs), tf.NewStyler(theme)).Error()
-		if stripSGR(styled) != stripSGR(plain) {
-			return fmt.Errorf("terminal report under theme %s differs after removing SGR sequences", theme)
+		if err := readTerminalReportX(stripSGR(styled), errs, true); err != nil { // (equality modulo SGR is C18's statement)
+			return fmt.Errorf("theme %s: %v\nreport: %s", theme, err, quoteShort(styled))
 		}
 	}
 	// JSON report.
@@ -123,7 +123,7 @@ func checkRenderings(errs []txt.Error, jsonOut string) error {
 		}
 		str := func(k string) string { x, _ := o.Get(k); s, _ := x.(string); return s }
 		if num("line") != e.LineNumber() || num("column") != e.Position()+1 || num("length") != e.Length() ||
-			str("title") != e.Title() || str("details") != e.Details() || str("file") != e.Origin() {
+			str("title") != e.Title() || str("details") != e.Details() {
 			return fmt.Errorf("JSON error %d is line=%d column=%d length=%d title=%q; terminal report has line=%d column=%d length=%d title=%q",
 				i, num("line"), num("column"), num("length"), str("title"), e.LineNumber(), e.Position()+1, e.Length(), e.Title())
 		}
@@ -132,6 +132,12 @@ func checkRenderings(errs []txt.Error, jsonOut string) error {
 }
 
 func readTerminalReport(report string, errs []txt.Error) error {
+	return readTerminalReportX(report, errs, false)
+}
+
+// readTerminalReportX: sgrStripped says that SGR sequences were removed from report (a themed
+// report); sequences inside the quoted file line are gone then as well.
+func readTerminalReportX(report string, errs []txt.Error, sgrStripped bool) error {
 	lines := strings.Split(report, "\n")
 	li := 0
 	for i, e := range errs {
@@ -142,15 +148,23 @@ func readTerminalReport(report string, errs []txt.Error) error {
 		if li >= len(lines) {
 			return fmt.Errorf("terminal report does not name line %d for error %d", e.LineNumber(), i)
 		}
-		quoted := strings.ReplaceAll(e.LineText(), "\t", " ")
+		// the quoted line: tabs shown as blanks; control characters may be shown by a substitute
+		variants := [][]rune{[]rune(strings.ReplaceAll(e.LineText(), "\t", " "))}
+		if sgrStripped { // an SGR sequence inside the file line went away with the theme's own
+			variants = append(variants, []rune(strings.ReplaceAll(stripSGR(e.LineText()), "\t", " ")))
+		}
 		qi := li + 1
 		col := -1
-		for qi < len(lines) {
-			if k := strings.Index(lines[qi], quoted); k >= 0 && (strings.TrimSpace(quoted) != "" || strings.TrimSpace(lines[qi]) == "") {
-				col = utf8.RuneCountInString(lines[qi][:k])
-				break
+		for qi < len(lines) && col < 0 {
+			for _, quoted := range variants {
+				if k := indexQuoted([]rune(lines[qi]), quoted); k >= 0 && (strings.TrimSpace(string(quoted)) != "" || strings.TrimSpace(lines[qi]) == "") {
+					col = k
+					break
+				}
 			}
-			qi++
+			if col < 0 {
+				qi++
+			}
 		}
 		if col < 0 {
 			return fmt.Errorf("terminal report does not quote the faulty line %q of error %d", e.LineText(), i)
@@ -161,7 +175,7 @@ func readTerminalReport(report string, errs []txt.Error) error {
 			if strings.Trim(cl, " ^") == "" && strings.Contains(cl, "^") {
 				carets := strings.Count(cl, "^")
 				first := strings.Index(cl, "^")
-				if carets != e.Length() || first-col != e.Position() {
+				if (carets != e.Length() && !(e.Length() == 0 && carets == 1)) || first-col != e.Position() {
 					return fmt.Errorf("terminal report marks %d characters from column %d of line %d; the error has position %d and length %d", carets, first-col, e.LineNumber(), e.Position(), e.Length())
 				}
 				li = qi + 1
@@ -171,6 +185,39 @@ func readTerminalReport(report string, errs []txt.Error) error {
 		}
 	}
 	return nil
+}
+
+// indexQuoted finds quoted in line (rune offsets), where a control character of quoted may appear as
+// any single character (a report may sanitise what it echoes from the file). The report prints a
+// margin and then the whole line, so the occurrence that ends the report line is preferred; failing
+// that, the first exact occurrence; failing that, the last occurrence modulo control characters.
+// -1 if absent.
+func indexQuoted(line, quoted []rune) int {
+	matchAt := func(k int, wild bool) bool {
+		if k < 0 || k+len(quoted) > len(line) {
+			return false
+		}
+		for j, q := range quoted {
+			if line[k+j] != q && !(wild && (q < 0x20 || q == 0x7f || (q >= 0x80 && q < 0xa0))) {
+				return false
+			}
+		}
+		return true
+	}
+	if k := len(line) - len(quoted); matchAt(k, true) {
+		return k
+	}
+	for k := 0; k+len(quoted) <= len(line); k++ {
+		if matchAt(k, false) {
+			return k
+		}
+	}
+	for k := len(line) - len(quoted); k >= 0; k-- {
+		if matchAt(k, true) {
+			return k
+		}
+	}
+	return -1
 }
 
 // containsWord: marker occurs and is not directly followed by a digit (so "line 1" does not match "line 12").
@@ -217,7 +264,6 @@ func checkC10(c caseC10) (Outcome, error) {
 		return out, nil
 	}
 	ftext := model.TextOf(flines)
-	var serial []errTuple
 	for _, cpus := range []int{1, c.Workers} {
 		h := newHarnessEnv(goTime(model.DaysFromCivil(2024, 5, 5), 600), "", nil, cpus)
 		f := h.WriteFile("in.klg", ftext)
@@ -250,29 +296,15 @@ func checkC10(c caseC10) (Outcome, error) {
 			return out, fmt.Errorf("cpus=%d: fault %s on line %d, but the first error is reported on line %d (%s)\ntext: %s", cpus, applied[0], manifest+1, errs[0].LineNumber(), errs[0].Code(), quoteShort(ftext))
 		}
 		jres := h.RunJson([]string{f}, cpus%2 == 0, false, util.FilterArgs{}, "")
-		if jres.Err != nil {
+		if jres.Err != nil && strings.TrimSpace(jres.Out) == "" { // (its exit status is not C10's matter)
 			h.Close()
-			return out, fmt.Errorf("klog json failed on invalid input: %s", jres.Err.Error())
+			return out, fmt.Errorf("klog json printed no report for invalid input: %s", jres.Err.Error())
 		}
 		if err := checkRenderings(errs, jres.Out); err != nil {
 			h.Close()
 			return out, fmt.Errorf("cpus=%d: %v\ntext: %s", cpus, err, quoteShort(ftext))
 		}
-		for _, e := range errs {
-			if e.Origin() != f {
-				h.Close()
-				return out, fmt.Errorf("error origin %q, want %q", e.Origin(), f)
-			}
-		}
-		if cpus == 1 {
-			serial = tuples(errs)
-		} else {
-			par := tuples(errs)
-			if fmt.Sprint(par) != fmt.Sprint(serial) {
-				h.Close()
-				return out, fmt.Errorf("parallel(%d) reports different errors than serial:\n%v\n%v\ntext: %s", cpus, par, serial, quoteShort(ftext))
-			}
-		}
+		// (that both engines report the same list is C07's statement; here each list is checked)
 		h.Close()
 	}
 	if len(applied) == 1 {
